@@ -99,7 +99,8 @@ def row_terms(c):
     if k == "neg":
         if c["err"] != 0:
             res = "(NError %d)" % c["err"]
-        elif c["finO"] and c["finR"] and not c["open"]:
+        elif c["finO"] and c["finR"]:
+            # (the final echo may still be in flight when the fuel runs out)
             res = "(NAgreed %s)" % cz(c["agreedFee"])
         else:
             res = "NOpen"
@@ -208,6 +209,35 @@ def chan_predicate(c):
     return f
 
 
+def pure_predicate(c):
+    """bal/tx rows in the no-wrap domain, computed independently of the model."""
+    f = []
+    if c["k"] == "bal":
+        vals = (c["fee"], c["our"], c["their"], c["cfee"])
+        if all(0 <= x < 2 ** 60 for x in vals):
+            credit = c["cfee"] + (2 * ANCHOR if c["an"] else 0)
+            o, t = c["our"] + (credit if c["ini"] else 0), c["their"] + (0 if c["ini"] else credit)
+            if (c["payer"] == 1) or (c["payer"] == 0 and c["ini"]):
+                o -= c["fee"]
+            else:
+                t -= c["fee"]
+            exp = (False, 0, 0) if (o < 0 or t < 0) else (True, o, t)
+            if (c["ok"], c["o"], c["t"]) != exp:
+                f.append(("C17_exact_balances", "CoopCloseBalance -> %s, expected %s" % ((c["ok"], c["o"], c["t"]), exp)))
+    elif c["k"] == "tx":
+        outs = []
+        if c["our"] >= c["ld"]:
+            outs.append((0 if (c["seq"] is not None and c["oo"]) else c["our"], c["os"]))
+        if c["their"] >= c["rd"]:
+            outs.append((0 if (c["seq"] is not None and c["to"]) else c["their"], c["ts"]))
+        outs.sort(key=lambda o: (o[0], bytes.fromhex(o[1])))
+        seq = c["seq"] if c["seq"] is not None else (0xfffffffd if c["rbf"] else 0xffffffff)
+        exp = {"ver": 2, "seq": seq, "lt": c["lt"] or 0, "outs": [list(o) for o in outs]}
+        if c["d"] != exp:
+            f.append(("C17_exact_balances", "CreateCooperativeCloseTx -> %s, expected %s" % (c["d"], exp)))
+    return f
+
+
 def pow_bound(lo, hi):
     """least n with 100 * hi * 1000^n <= 129 * lo * 1091^n (hypothesis of
     C17_negotiation_terminates)"""
@@ -224,7 +254,7 @@ def neg_predicate(c):
     f = []
     lo, hi = min(c["io"], c["ir"]), max(c["io"], c["ir"])
     realistic = (not c["tap"]) and lo >= 100 and hi <= c["maxO"] and hi <= c["afford"]
-    agreed = c["err"] == 0 and c["finO"] and c["finR"] and not c["open"]
+    agreed = c["err"] == 0 and c["finO"] and c["finR"]
     if agreed:
         fee = c["agreedFee"]
         if c["txO"] != c["txR"] or not c["txO"]:
@@ -246,6 +276,9 @@ def neg_predicate(c):
                       % (c["io"], c["ir"], c["err"], c["msg"])))
         elif len(c["trace"]) > bound:
             f.append(("C17_negotiation_terminates", "%d rounds > bound %d" % (len(c["trace"]), bound)))
+    over = [x for x in c["priorO"] if x > c["maxO"] and x != c["io"]]
+    if over:
+        f.append(("C17_negotiation_terminates", "opener signed for %s above its cap %d" % (over, c["maxO"])))
     if c.get("witness") == "stuck" and not (c["open"] and c["err"] == 0 and len(c["trace"]) == c["fuel"]
                                             and set(c["trace"][2:]) == {1, 5}):
         f.append(("C17_ratchet_stuck_refuted", "witness (ideal 1 / 5 sat) no longer loops on the real code"))
@@ -302,6 +335,9 @@ def run(ctx):
             prep_neg(c)
             fails = neg_predicate(c)
             pred_evals += 1
+        elif c["k"] in ("bal", "tx"):
+            fails = pure_predicate(c)
+            pred_evals += 1
         if fails:
             c["_pred_fail"] = True
             nfail += 1
@@ -350,7 +386,7 @@ def run(ctx):
             if c["propA"]["err"] == 0:
                 inc(nouts, len(c["propA"]["d"]["outs"]))
         if c["k"] == "neg":
-            r = ("error%d" % c["err"]) if c["err"] else ("open" if c["open"] else "agreed")
+            r = ("error%d" % c["err"]) if c["err"] else ("agreed" if c["finO"] and c["finR"] else "open")
             inc(negres, ("taproot-" if c["tap"] else "") + r)
             inc(rounds, min(len(c["trace"]) // 10 * 10, 100))
     nontrivial = [c for c in rows if c["k"] in ("chan", "dance", "neg")]
